@@ -692,10 +692,12 @@ def run_property(pid, instances, tier, seed, meta):
     replay_paths = []
     seen = set()
     for inst, v in violations:
-        key = (inst["harness"], v["label"])
+        key = (inst["name"], v["label"])
         if key in seen:
             continue
         seen.add(key)
+        if len(seen) > 40:
+            continue
         rp = dict(property=pid, harness=inst["harness"], name=inst["name"], params=inst["params"], label=v["label"],
                   inputs=v["inputs"], native_outcome=v["native"], detail=v["detail"])
         h = hashlib.sha1(json.dumps(rp, sort_keys=True, default=str).encode()).hexdigest()[:10]
